@@ -386,6 +386,8 @@ func runC12(c *Ctx, r *Report) {
 
 	// R-C12.5: a failed decode hands back no entry
 	r.Doc("R-C12.5", "in the decode closure a return with a non-nil error carries a nil value (callers filter failed blocks by the value)")
+	r.Doc("R-C12.6", "a block that fails to load or decode costs nothing but itself: the worker still returns its slot, decrements the in-progress counter and wakes the dispatcher on that path")
+	importRules(c, r, "C11", []string{"R-C11.1", "R-C11.6"}, "R-C12.6")
 	nerr := 0
 	for _, fn := range fns {
 		if fn.Type.Results == nil || len(fn.Type.Results.List) == 0 {
